@@ -191,6 +191,14 @@ func init() {
 	impliedProps["R51"] = append(impliedProps["R51"], "C06", "C01", "C11", "C15")
 	impliedProps["R52"] = append(impliedProps["R52"], "C04", "C08")
 	impliedProps["R54"] = append(impliedProps["R54"], "C03", "C09")
+	// a stored key that aliases the caller's buffer changes under the tree: pairs vanish from
+	// lookups and iteration
+	impliedProps["R26"] = append(impliedProps["R26"], "C01", "C02")
+	// state that a query writes into the tree makes every later answer depend on the history
+	impliedProps["R25"] = append(impliedProps["R25"], "C04", "C14", "C02", "C03")
+	// a success without the full-key comparison removes or overwrites another key: the index no
+	// longer matches its key set, the size no longer the number of keys
+	impliedProps["R02"] = append(impliedProps["R02"], "C11", "C06")
 	// a fan-out counter that no longer follows the removals keeps the shrink thresholds from firing
 	impliedProps["R41"] = append(impliedProps["R41"], "C17")
 	impliedProps["R29"] = append(impliedProps["R29"], "C08")
